@@ -170,7 +170,7 @@ func ToChannel[T any](size int) func(Observable[T]) Observable[<-chan Notificati
 			// Because the observer might call be long-running.
 			// But on empty source, the destination.CompleteWithContext() might be
 			// called before the goroutine is started.
-			destination.NextWithContext(context.TODO(), ch)
+			destination.NextWithContext(subscriberCtx, ch)
 
 			return func() {
 				subscriptions.Unsubscribe()
